@@ -69,4 +69,81 @@ theorem ensemble_schedule_independent (c : Qv.C14.Cfg) (hW : 1 ≤ c.workers) (h
   · have : j ∉ (Qv.C14.iter c (Qv.C14.fuel c) (Qv.C14.init c sched)).comp := fun hm => hj (hlt j hm)
     simp [hj, this]
 
+/-! ## Seeds and trajectories stay paired under any arrival order -/
+
+theorem foldl_arrive {α : Type} (traj : SeedSeq → α) (seeds : List SeedSeq) (order : List Nat) (c : Collected α) :
+    order.foldl (arrive traj seeds) c =
+      { seeds := c.seeds ++ order.filterMap (fun i => seeds[i]?),
+        runs := c.runs ++ (order.filterMap (fun i => seeds[i]?)).map traj } := by
+  induction order generalizing c with
+  | nil => simp
+  | cons i rest ih =>
+    rw [List.foldl_cons, ih]
+    unfold arrive
+    cases h : seeds[i]? with
+    | none => simp [h]
+    | some s => simp [h, Collected.add]
+
+/-- the seeds reported are the tasks' seeds in arrival order -/
+theorem collect_seeds {α : Type} (traj : SeedSeq → α) (seeds : List SeedSeq) (order : List Nat) :
+    (collect traj seeds order).seeds = order.filterMap (fun i => seeds[i]?) := by
+  simp [collect, foldl_arrive]
+
+/-- **pairing**: whatever the arrival order, the run stored at position `k` is the trajectory of the seed
+reported at position `k` -/
+theorem collect_paired {α : Type} (traj : SeedSeq → α) (seeds : List SeedSeq) (order : List Nat) :
+    (collect traj seeds order).runs = (collect traj seeds order).seeds.map traj := by
+  simp [collect, foldl_arrive]
+
+theorem filterMap_range'_getElem? {β : Type} (l pre : List β) :
+    (List.range' pre.length l.length).filterMap (fun i => (pre ++ l)[i]?) = l := by
+  induction l generalizing pre with
+  | nil => simp
+  | cons a l ih =>
+    rw [List.length_cons, List.range'_succ, List.filterMap_cons]
+    have h0 : (pre ++ a :: l)[pre.length]? = some a := by simp
+    rw [h0]
+    have h1 : pre ++ a :: l = (pre ++ [a]) ++ l := by simp
+    have h2 : pre.length + 1 = (pre ++ [a]).length := by simp
+    rw [h1, h2, ih]
+
+theorem filterMap_range_getElem? {β : Type} (l : List β) :
+    (List.range l.length).filterMap (fun i => l[i]?) = l := by
+  have := filterMap_range'_getElem? l []
+  simpa [List.range_eq_range'] using this
+
+/-- when every task arrives exactly once, the reported seeds are a rearrangement of the seeds handed in -/
+theorem collect_perm {α : Type} (traj : SeedSeq → α) (seeds : List SeedSeq) (order : List Nat)
+    (h : order.Perm (List.range seeds.length)) : (collect traj seeds order).seeds.Perm seeds := by
+  rw [collect_seeds]
+  have := h.filterMap (fun i => seeds[i]?)
+  rwa [filterMap_range_getElem?] at this
+
+/-- **the reported seeds regenerate the result**: handing `result.seeds` back as the seed list and running
+serially (arrival order = submission order) gives the same seeds and the same runs, position by position -/
+theorem collect_rerun {α : Type} (traj : SeedSeq → α) (seeds : List SeedSeq) (order : List Nat) :
+    let r := collect traj seeds order
+    let r2 := collect traj r.seeds (List.range r.seeds.length)
+    r2.seeds = r.seeds ∧ r2.runs = r.runs := by
+  intro r r2
+  have hs : r2.seeds = r.seeds := by
+    simp only [r2, collect_seeds, filterMap_range_getElem?]
+  refine ⟨hs, ?_⟩
+  rw [collect_paired traj r.seeds, collect_paired traj seeds order]
+  simp only [r2] at hs
+  rw [hs]
+
+/-- non-vacuity: reporting the seeds in submission order breaks the pairing as soon as two results arrive
+out of order -/
+example :
+    let s0 : SeedSeq := { entropy := 7, key := [0] }
+    let s1 : SeedSeq := { entropy := 7, key := [1] }
+    let r := collectSubmissionSeeds (fun s => s.key) [s0, s1] [1, 0]
+    r.runs ≠ r.seeds.map (fun s => s.key) := by decide
+
+example :
+    let s0 : SeedSeq := { entropy := 7, key := [0] }
+    let s1 : SeedSeq := { entropy := 7, key := [1] }
+    (collect (fun s => s.key) [s0, s1] [1, 0]).seeds = [s1, s0] := by decide
+
 end Qv.C13
